@@ -65,6 +65,7 @@ type Frame struct {
 	callOrd map[string]int
 	retVals []Val
 	srcMap  map[token.Pos]string
+	matched map[*Clause]bool
 	frameLo, frameHi string // position range of the element write being frame-checked
 	iters   map[*ssa.Range]string
 	lastIter string
@@ -603,7 +604,7 @@ func (e *Engine) totalHavocG(st *State, keepGhosts bool) *State {
 // ------------------------------------------------------------------ function execution
 
 func (e *Engine) newFrame(fn *ssa.Function, prefix string) *Frame {
-	fr := &Frame{e: e, fn: fn, vals: map[ssa.Value]Val{}, sites: map[string][]defSite{}, ordinal: map[string]int{}, callOrd: map[string]int{}, prefix: prefix, iters: map[*ssa.Range]string{}}
+	fr := &Frame{e: e, fn: fn, vals: map[ssa.Value]Val{}, sites: map[string][]defSite{}, ordinal: map[string]int{}, callOrd: map[string]int{}, prefix: prefix, iters: map[*ssa.Range]string{}, matched: map[*Clause]bool{}}
 	fr.spec = e.specFor(fn)
 	return fr
 }
@@ -685,6 +686,14 @@ func (fr *Frame) exec(reach string, st *State) (string, *State, []Val) {
 				continue
 			}
 			fr.step(in, incoming, &rets)
+		}
+	}
+	// every call-site clause must have found its call: a clause that matches nothing checks nothing
+	if fr.spec != nil {
+		for _, c := range append(append([]*Clause{}, fr.spec.Asserts...), fr.spec.Assumes...) {
+			if strings.HasPrefix(c.Key, "call ") && !fr.matched[c] {
+				e.unsupported = append(e.unsupported, fmt.Sprintf("%s: %s %q [%s] matches no call site (%s:%d)", fr.prefix, c.Kind, c.Key, labelOr(c), c.File, c.Line))
+			}
 		}
 	}
 	// merge returns
